@@ -18,6 +18,14 @@ Known findings in this property's zone: D1 (templated strings inside container v
 D13 (a parameter's string form is re-scanned); a failure is tagged only when the independent
 substitution attributes it to that zone AND the model agrees with the implementation.
 """
+import copy
+import json
+import os
+import random
+import subprocess
+import sys
+import tempfile
+import threading
 import warnings
 
 import coreprop as cp
@@ -67,6 +75,19 @@ def del_path(o, key):
         cur = cur[s[1]]
     if key[-1][0] == "n" and isinstance(cur, dict):
         cur.pop(key[-1][1], None)
+    return out
+
+
+def prune_path(o, key):
+    """del_path, and the parent sections that became empty are removed too (an empty section left on the path of an absent dotted key
+    is a leaf the perturbation may turn into a scalar: the scalar-parent zone of finding D6, which is C04's)"""
+    out = del_path(o, key)
+    for n in range(len(key) - 1, 0, -1):
+        try:
+            if jget(out, key[:n]) == {}:
+                out = del_path(out, key[:n])
+        except (KeyError, Undef):
+            pass
     return out
 
 
@@ -314,7 +335,8 @@ def jget(o, key):
 
 
 def is_scalar(v):
-    return v is None or isinstance(v, (bool, int))
+    # floats are never sent to the model (no string form there); the oracle-only families use them (str() of a float is what Python says)
+    return v is None or isinstance(v, (bool, int, float))
 
 
 def lits(text):
@@ -434,6 +456,8 @@ class Spec:
             return self.text(e[1], parvals)
         if k == "call" and self.ftable.get(e[1]) == ("first",):
             return self.ev(e[2][0])
+        if k == "apply" and e[2][0] == "fnvalue" and self.ftable.get(e[2][1]) == ("first",):
+            return self.ev(e[1])          # `>> f` with f the identity
         raise Undef(k)
 
 
@@ -463,7 +487,10 @@ class Impl:
             self.objs = [self.b.build(e) for e in scn["exprs"]]
 
     def call(self, i, meth, o):
-        po = core.py_json(o)
+        return self.call_py(i, meth, core.py_json(o))
+
+    def call_py(self, i, meth, po, flag=None):
+        """po is a PYTHON dictionary, handed over as is (the very same object when the caller keeps it alive between calls)"""
         try:
             with warnings.catch_warnings():
                 warnings.simplefilter("ignore")
@@ -476,8 +503,60 @@ class Impl:
         except RecursionError:
             return ("err", "fuel")
         except Exception as exc:  # noqa
-            c, _ = core.classify(exc)
+            c, ee = core.classify(exc)
+            if flag is not None:
+                flag.append(ee)
             return ("err", c)
+
+    def line(self, i, meth, po):
+        """the result part of an observation line, in the vocabulary of core.run_impl / EvalRun.run_op"""
+        flag = []
+        r = self.call_py(i, meth, po, flag)
+        if r[0] == "ok":
+            txt = "ok:" + (r[1] if meth != "keys" and meth != "explain" else core.show_keys(core.key_text(k) for k in r[1]))
+        elif r[1] == "fuel" and not flag:
+            txt = "err:fuel:F"
+        else:
+            txt = f"err:{r[1]}:{'T' if flag and flag[0] else 'F'}"
+        return core.canon_names(txt)
+
+
+class ObjImpl(Impl):
+    """the same interface over objects that were built by hand (alternative spellings)"""
+
+    def __init__(self, objs, world):
+        self.objs, self.w = objs, world
+
+
+class LiveImpl(Impl):
+    """the same long-lived objects, always called with ONE options dictionary object, which is edited in place to become the next
+    dictionary (sections and lists that exist on both sides keep their identity): a caller who owns one dictionary and updates it"""
+
+    def __init__(self, scn):
+        super().__init__(scn)
+        self.live = {}
+
+    def call(self, i, meth, o):
+        sync_inplace(self.live, core.py_json(o))
+        return self.call_py(i, meth, self.live)
+
+    def line_at(self, i, meth, o):
+        sync_inplace(self.live, core.py_json(o))
+        return self.line(i, meth, self.live)
+
+
+def sync_inplace(live, target):
+    for k in list(live):
+        if k not in target:
+            del live[k]
+    for k, v in target.items():
+        cur = live.get(k, sync_inplace)
+        if type(v) is dict and type(cur) is dict:
+            sync_inplace(cur, v)
+        elif type(v) is list and type(cur) is list:
+            cur[:] = copy.deepcopy(v)
+        else:
+            live[k] = copy.deepcopy(v)
 
 
 class _Spy(dict):
@@ -630,6 +709,245 @@ def zone_of_failure(f, sp):
     return None
 
 
+# ----------------------------------------------------------------------------- alternative spellings of "an option whose default is a templated string"
+METHODS = ("evaluate", "keys", "explain", "validate")
+SPELL_KEYS = [K(SEC, 26), K(SEC, SX), K(SEC, SY), K(*DEEP), K(17), K(10)]
+
+
+def spellings(world, key, toks):
+    """every public way of declaring the Option `key` whose default is the templated string `toks` (canonical expression 0), and the
+    same followed by `>> f` with f the identity (canonical expression 1): [(label, canonical index, object)]"""
+    from labrea import Option, Template
+    text, kt = core.str_text(toks), core.key_text(key)
+    f = world.fn(FIRST)
+    out = [("Option(key, default=<str>)", 0, Option(kt, default=text)),
+           ("Option(key, <str>)", 0, Option(kt, text)),
+           ("Option(key, default=Template(<str>))", 0, Option(kt, default=Template(text))),
+           ("Option[str](key, default=<str>)", 0, Option[str](kt, default=text)),
+           ("Option(key, default=<str>, doc=..., type=str)", 0, Option(kt, default=text, doc="documented", type=str)),
+           ("Option(key, default=<str>) >> f", 1, Option(kt, default=text) >> f),
+           ("Option(key, default=<str>).apply(f)", 1, Option(kt, default=text).apply(f))]
+    names = [core.name_of(s[1]) for s in key]
+    if len(names) < 2 or any(s[0] != "n" for s in key):
+        return out
+    path, member = names[:-1], names[-1]
+
+    def ns(value, structure="implicit", annotations=None, item=False):
+        attr = path if structure != "renamed" else [f"X{j}" for j in range(len(path))]
+        body = {member: value}
+        if annotations:
+            body["__annotations__"] = dict(annotations)
+        node = None
+        for depth in range(len(path) - 1, -1, -1):
+            cls = type(attr[depth], (), body)
+            if depth == 0:
+                node = Option.namespace(path[0])(cls) if structure == "renamed" else Option.namespace(cls)
+            else:
+                inner = cls                                            # implicit sub-namespace: a plain nested class
+                if structure == "explicit":
+                    inner = Option.namespace(cls)                      # decorated sub-namespace (re-keyed when the parent is built)
+                elif structure == "renamed":
+                    inner = Option.namespace(path[depth])(cls)         # decorated with an explicit name, class / attribute named otherwise
+                body = {attr[depth]: inner}
+        cur = node
+        for a in attr[1:]:
+            cur = getattr(cur, a)
+        return cur[member] if item else getattr(cur, member)
+
+    A = Option.auto
+    out += [
+        ("namespace: M = Option.auto(<str>)", 0, ns(A(text))),
+        ("namespace: M = Option.auto(default=<str>, doc=...)", 0, ns(A(default=text, doc="documented"))),
+        ("namespace: M = Option.auto(<str>, type=str)", 0, ns(A(text, type=str))),
+        ("namespace: M = Option.auto(<str>) >> f", 1, ns(A(text) >> f)),
+        ("namespace: M = Option.auto(<str>, doc=...) >> f, item access", 1, ns(A(text, "documented") >> f, item=True)),
+        ("namespace: M = <str>", 0, ns(text)),
+        ("namespace: M: str = <str>", 0, ns(text, annotations={member: str})),
+        ("namespace: M = Option('M', default=<str>)", 0, ns(Option(member, default=text))),
+        ("namespace: M = Option('M', <str>)", 0, ns(Option(member, text))),
+        ("namespace: M = Option('M', default=Template(<str>))", 0, ns(Option(member, default=Template(text)))),
+        ("namespace: M = Template(<str>)", 0, ns(Template(text))),
+        ("namespace, item access: M = Option.auto(<str>)", 0, ns(A(text), item=True)),
+        ("decorated sub-namespaces: M = Option.auto(<str>)", 0, ns(A(text), "explicit")),
+        ("decorated sub-namespaces: M = Option.auto(<str>) >> f", 1, ns(A(text) >> f, "explicit")),
+        ("decorated sub-namespaces: M = Option('M', default=<str>)", 0, ns(Option(member, default=text), "explicit")),
+        ("decorated sub-namespaces: M = <str>", 0, ns(text, "explicit")),
+        ("renamed namespaces: M = Option.auto(<str>)", 0, ns(A(text), "renamed")),
+        ("renamed namespaces: M = Option.auto(<str>) >> f", 1, ns(A(text) >> f, "renamed")),
+        ("renamed namespaces: M = <str>", 0, ns(text, "renamed")),
+        ("renamed namespaces: M = Option('M', default=<str>)", 0, ns(Option(member, default=text), "renamed")),
+    ]
+    return out
+
+
+def gen_spelling_scenario(rng, depth):
+    esc_values = rng.random() < 0.4
+    refs = REF_ORDER + ABSENT[:1] * (rng.random() < 0.1)
+    key = rng.choice(SPELL_KEYS)
+    toks = gen_toks(rng, [k for k in refs if k != key], maxlen=4)
+    e_opt = ("option", key, ("template", toks, []), None)
+    exprs = [e_opt, ("apply", e_opt, ("fnvalue", FIRST))]
+    base, _ = gen_options(rng, depth, escapes_p=0.12 if esc_values else 0.0)
+    absent = prune_path(base, key)
+    pool = [base, absent, prune_path(put_path(absent, rng.choice(REF_ORDER), rng.choice(SCALARS)), key)]
+    if rng.random() < 0.4:
+        pool.append({})
+    pool.append(gen_options(rng, depth, escapes_p=0.12 if esc_values else 0.0)[0])
+    ops = [(m, i, False, False, o) for o in pool for i in range(len(exprs)) for m in METHODS]
+    return dict(ftable={FIRST: ("first",)}, env={}, exprs=exprs, ops=ops, pool=pool, defect=None, spelling=True)
+
+
+def check_spellings(scn, ml, rng, budget=2, only=None):
+    """the oracle on every spelling + the model's lines against every spelling: (failures, mismatches, calls)"""
+    e_opt = scn["exprs"][0]
+    world = core.World(scn["ftable"])
+    with warnings.catch_warnings():
+        warnings.simplefilter("ignore")
+        sps = spellings(world, e_opt[1], e_opt[2][1])
+    if only is not None:
+        sps = [x for x in sps if x[0] == only]
+    impl = ObjImpl([x[2] for x in sps], world)
+    view = dict(scn, exprs=[scn["exprs"][x[1]] for x in sps])
+    fails, mism, n, nm = [], [], 0, 0
+    for j, (label, idx, _obj) in enumerate(sps):
+        for o in scn["pool"]:
+            fs, sp, want, got = check_case(impl, view, j, o)
+            pf, k = perturb_case(impl, view, j, o, sp, got, rng, budget=budget)
+            n += 3 + k
+            for f in fs + pf:
+                f.pop("unreported_keys", None)
+                fails.append(dict(f, desc=f"[{label}] " + f["desc"], spelling=label, expr_index=idx, options=repr(o)))
+        if ml is not None:
+            sub = [(k, op) for k, op in enumerate(scn["ops"]) if op[1] == idx]
+            lines = [impl.line(j, op[0], core.py_json(op[4])) + "|" + " ".join(cp.split(cp.strip_ghost(ml[k]))[1]) for k, op in sub]
+            n += len(sub)
+            nm += len(sub)
+            mls = [ml[k] for k, _ in sub]
+            if not cp.agrees(lines, mls, scn):
+                bad = next(t for t in range(len(lines)) if not cp.agrees(lines[:t + 1], mls[:t + 1], scn))
+                mism.append(dict(where=f"Model/Eval.v vs labrea, the option spelled [{label}]", op=repr(sub[bad][1]),
+                                 impl=cp.split(lines[bad])[0], model=cp.split(cp.strip_ghost(mls[bad]))[0],
+                                 scenario_repr=cp.dump_scn(dict(scn, ops=[], pool=[]))))
+    return fails, mism, n, len(sps), nm
+
+
+# ----------------------------------------------------------------------------- histories on long-lived objects and one live dictionary
+
+def bit_flip(v):
+    """the value of the other type that compares equal: 1 / True, 0 / False (str(1) != str(True))"""
+    if v is True:
+        return 1
+    if v is False:
+        return 0
+    if type(v) is int and v in (0, 1):
+        return bool(v)
+    return None
+
+
+def eq_variant(j, rng, p):
+    """a dictionary that compares EQUAL to j in Python but whose 0 / 1 / False / True leaves have the other type (each with chance p)"""
+    if isinstance(j, dict):
+        return {k: eq_variant(v, rng, p) for k, v in j.items()}
+    if isinstance(j, list):
+        return [eq_variant(v, rng, p) for v in j]
+    b = bit_flip(j)
+    return b if (b is not None and rng.random() < p) else j
+
+
+def float_variant(j):
+    """ints and bools replaced by the float that compares equal (1 == True == 1.0, str: '1' / 'True' / '1.0'); outside the model"""
+    if isinstance(j, dict):
+        return {k: float_variant(v) for k, v in j.items()}
+    if isinstance(j, list):
+        return [float_variant(v) for v in j]
+    return float(j) if isinstance(j, (bool, int)) else j
+
+
+def gen_history(rng, depth):
+    """3 long-lived objects (a Template with parameters, an Option with a possibly templated value, an Option with a templated default)
+    called along a sequence of dictionaries in which neighbours compare equal although they differ, a read key disappears / changes and
+    the first dictionary comes back; first evaluate only, then every method"""
+    esc_values = rng.random() < 0.3
+    exprs = gen_exprs(rng, None, esc_values)[:3]
+    ft = {FIRST: ("first",)}
+    base, _ = gen_options(rng, depth, missing_p=0.0, escapes_p=0.12 if esc_values else 0.0)
+    reads = []
+    for e in exprs:
+        for k in spec_outcome(e, base, ft)[1].reads:
+            if k not in reads and all(s[0] == "n" for s in k):
+                reads.append(k)
+    present = []
+    for k in reads:
+        try:
+            present.append((k, jget(base, k)))
+        except (KeyError, Undef):
+            pass
+    terminal = [k for k, v in present if not isinstance(v, (S, list, dict))]
+    rng.shuffle(terminal)
+    for k in terminal[:2]:
+        base = put_path(base, k, rng.choice([0, 1, True, False]))
+    v1 = eq_variant(base, rng, 1.0)
+    v2 = eq_variant(base, rng, 0.5)
+    rk = [k for k, _ in present] or [rng.choice(REF_ORDER)]
+    d1 = del_path(base, rng.choice(rk))
+    p1 = put_path(base, rng.choice(rk), rng.choice(SCALARS))
+    seq1 = [base, v1, base, d1, v2, p1]
+    seq2 = [base, v2, d1, base, v1, p1]
+    ops = [("evaluate", i, False, False, o) for o in seq1 for i in range(len(exprs))]
+    ops += [(m, i, False, False, o) for o in seq2 for i in range(len(exprs)) for m in METHODS]
+    tail = [base, float_variant(base), v1, float_variant(d1), float_variant(base), base]
+    return dict(ftable=ft, env={}, exprs=exprs, ops=ops, pool=[], defect=None, history=True, float_tail=tail)
+
+
+def run_history(scn, ml, float_tail=True, stop_first=True):
+    """(failures, correspondence mismatches, calls): every answer of the long-lived objects under the live dictionary must be the one of
+    objects that never saw another dictionary (called with a dictionary of their own), must satisfy the independent substitution, and -
+    for the part the model can express - must be the model's line"""
+    live = LiveImpl(scn)
+    fresh = {}
+
+    def fresh_line(i, m, o):
+        if repr(o) not in fresh:
+            fresh[repr(o)] = Impl(scn)
+        return fresh[repr(o)].line(i, m, core.py_json(o))
+    fails, mism, lines, n = [], [], [], 0
+    ops = list(scn["ops"])
+    n_model = len(ops)
+    if float_tail:
+        ops += [(m, i, False, False, o) for o in scn.get("float_tail", []) for i in range(len(scn["exprs"])) for m in METHODS]
+    for k, (m, i, _cc, _lc, o) in enumerate(ops):
+        got = live.line_at(i, m, o)
+        want = fresh_line(i, m, o)
+        n += 2
+        if k < n_model:
+            lines.append(got)
+        if got != want:
+            fails.append(dict(kind="history", desc=f"{m}() of a long-lived object, called with one options dictionary object that its owner edits "
+                                                   "in place between the calls, differs from the answer of a fresh object under a fresh dictionary",
+                              method=m, got=got, want=want, expr_index=i, options=repr(o), position=k,
+                              previous=[repr(op[4]) for op in ops[max(0, k - 2 * len(scn["exprs"]) * 4):k] if op[1] == i][-2:],
+                              scenario_repr=cp.dump_scn(dict(scn, ops=ops[:k + 1], pool=[], float_tail=[]))))
+            if stop_first:
+                break
+        elif m == "evaluate":
+            # the property's own oracle at this point of the history (evaluate / keys / explain of the long-lived object, live dictionary)
+            fs, sp, _want, _got = check_case(live, scn, i, o)
+            n += 3
+            for f in fs:
+                z = zone_of_failure(f, sp)
+                f.pop("unreported_keys", None)
+                fails.append(dict(f, zone=z, expr_index=i, options=repr(o), position=k,
+                                  scenario_repr=cp.dump_scn(dict(scn, ops=ops[:k + 1], pool=[], float_tail=[]))))
+    if ml is not None and len(lines) == n_model:
+        full = [a + "|" + " ".join(cp.split(cp.strip_ghost(b))[1]) for a, b in zip(lines, ml)]
+        if not cp.agrees(full, ml, scn):
+            bad = next(t for t in range(len(full)) if not cp.agrees(full[:t + 1], ml[:t + 1], scn))
+            mism.append(dict(where="Model/Eval.v vs labrea, long-lived objects called with one dictionary object edited in place",
+                             op_index=bad, op=repr(scn["ops"][bad]), impl=lines[bad], model=cp.split(cp.strip_ghost(ml[bad]))[0],
+                             scenario_repr=cp.dump_scn(dict(scn, pool=[], float_tail=[]))))
+    return fails, mism, n
+
+
 # ----------------------------------------------------------------------------- witnesses / corpus
 A, B = 10, 11
 WITNESS = {
@@ -690,40 +1008,136 @@ Definition c09_reads (t : ftable) (e : expr) (o : dict) : string :=
 """
 
 
-def run(ctx):
-    rng = ctx.rng
-    depth = 3 if ctx.quick else 5
-    n_main, n_d1, n_d13, n_mal = (48, 10, 10, 8) if ctx.quick else (480, 100, 100, 60)
-    scns = list(CORPUS)
-    for _, cs in corpus_for(PID):            # scenarios of repaired defects registered for this property
-        pool = []
-        for op in cs["ops"]:
-            if op[4] not in pool:
-                pool.append(op[4])
-        scns.append(dict(cs, pool=pool, defect=None))
-    for j in range(n_main):
-        scns.append(gen_scenario(rng, depth if j % 4 else max(1, depth - 1)))
-    for _ in range(n_d1):
-        scns.append(gen_scenario(rng, depth, "D1"))
-    for _ in range(n_d13):
-        scns.append(gen_scenario(rng, depth, "D13"))
-    for _ in range(n_mal):
-        scns.append(malformed_scenario(rng))
+# ----------------------------------------------------------------------------- the oracle in other interpreters
+INTERPRETERS = [
+    # label, interpreter flags, environment, run in a worker thread
+    ("python -O", ["-O"], {}, False),
+    ("python -OO", ["-OO"], {}, False),
+    ("a worker thread of a plain interpreter started with -X dev", ["-X", "dev"], {}, True),
+]
+CHILD_MARK = "@@C09-CHILD@@"
+CHILD_SIZES = {True: (10, 3, 3, 3, 5, 3), False: (60, 15, 15, 10, 30, 15)}
 
-    # 1. correspondence: model vs implementation on the histories
-    # small shards: one generated file holds the concatenated observation lines of its scenarios,
-    # and Coq's (non tail-recursive) string concatenation overflows the stack on very long ones
-    impls, models, mism, stats = cp.correspondence(ctx, scns, "Cases_C09", shard=10)
-    model_ok = [cp.agrees(il, ml, s) for s, il, ml in zip(scns, impls, models)]
 
-    # 2./3. oracle + perturbation
+def _child_env(extra):
+    keep = ("PYTHONPATH", "PYTHONHASHSEED", "PYTHONDONTWRITEBYTECODE", "LABREA_VERIF", "VERIF_REPO", "PATH", "HOME", "LANG", "LC_ALL", "TMPDIR")
+    env = {k: v for k, v in os.environ.items() if k in keep}
+    env.update(extra)
+    return env
+
+
+def _spawn(flags, extra_env, request):
+    cmd = [sys.executable, *flags, "-W", "ignore", "-c", "import props.c09 as m; m.child_main()"]
+    # output goes to temporary files: a child that reports many failures must not block on a full pipe
+    fout, ferr = tempfile.TemporaryFile("w+"), tempfile.TemporaryFile("w+")
+    p = subprocess.Popen(cmd, stdin=subprocess.PIPE, stdout=fout, stderr=ferr, text=True, env=_child_env(extra_env), cwd=lib.ROOT)
+    p.files = (fout, ferr)
+    p.stdin.write(json.dumps(request))
+    p.stdin.close()
+    return p
+
+
+def _collect(p, timeout):
+    try:
+        p.wait(timeout=timeout)
+    except subprocess.TimeoutExpired:
+        p.kill()
+        return None, "timeout"
+    fout, ferr = p.files
+    fout.seek(0)
+    ferr.seek(0)
+    out, err = fout.read(), ferr.read()
+    fout.close()
+    ferr.close()
+    for line in out.splitlines():
+        if line.startswith(CHILD_MARK):
+            return json.loads(line[len(CHILD_MARK):]), err[-1500:]
+    return None, (err or out)[-1500:]
+
+
+def child_main():
+    """entry point of a child interpreter: the implementation-side oracle of this module on a smaller set of scenarios of every stream
+    (or the replay of one reported input) in THIS interpreter; no Coq, no grandchildren"""
+    req = json.load(sys.stdin)
+    out = {}
+
+    def work():
+        if "replay" in req:
+            still, detail = replay(None, req["replay"])
+            out.update(still=still, detail=detail)
+            return
+        rng = random.Random(req["seed"] + 1)
+        scns, _depth = build_scenarios(rng, req["quick"], CHILD_SIZES[bool(req["quick"])])
+        violations, _mm, ostats, xstats, _rc, _samples, _distinct, tagged = oracle_pass(scns, None, None, rng, req["quick"])
+        untagged = [v for v in violations if not v.get("finding")]
+        out.update(violations=untagged[:25], n_violations=len(untagged), tagged=tagged,
+                   n=ostats["cases"] * 3 + ostats["perturbations"] + xstats["spelling_calls"] + xstats["history_calls"],
+                   optimize=sys.flags.optimize, dev_mode=sys.flags.dev_mode, thread=threading.current_thread() is not threading.main_thread())
+    if req.get("thread"):
+        t = threading.Thread(target=work)
+        t.start()
+        t.join()
+    else:
+        work()
+    print(CHILD_MARK + json.dumps(out, default=str))
+
+
+def start_interpreters(ctx):
+    return [(label, flags, env, thread, _spawn(flags, env, dict(seed=ctx.seed, quick=ctx.quick, thread=thread)))
+            for label, flags, env, thread in INTERPRETERS]
+
+
+def collect_interpreters(children, violations, mism, quick):
+    info = {}
+    for label, flags, env, thread, p in children:
+        res, err = _collect(p, 600 if quick else 6000)
+        if res is None or "violations" not in res:
+            mism.append(dict(where=f"the oracle could not be completed in [{label}]", error=err))
+            continue
+        want_opt = 2 if "-OO" in flags else 1 if "-O" in flags else 0
+        if res["optimize"] != want_opt or res["thread"] != thread:
+            mism.append(dict(where=f"child interpreter [{label}] did not start with the requested settings", got=repr(res)[:300]))
+        info[label] = dict(evaluations=res["n"], violations=res["n_violations"], tagged=res["tagged"], optimize=res["optimize"])
+        for v in res["violations"]:
+            violations.append(dict(v, desc=f"[{label}] " + v.get("desc", v.get("kind", "")),
+                                   interpreter=dict(label=label, flags=flags, env=env, thread=thread)))
+    return info
+
+
+
+def oracle_pass(scns, models, model_ok, rng, quick):
+    """2./3. the oracle + perturbation on every scenario (implementation only; `models` / `model_ok` are None in a child interpreter,
+    where no Coq runs: the correspondence parts are skipped and a failure in a known zone is attributed to that zone)"""
+    mism = []
     violations, distinct, tagged = [], set(), {}
     ostats = dict(kind={}, cases=0, perturbations=0, deleted_read_cases=0, depth_hist={}, tokens={}, by_stream={},
                   with_params=0, zone_cases={"D1": 0, "D13": 0})
     read_cases = []   # (scenario index, expr index, dict, spec reads) for the reads triangle
     samples = []
-    pr = core.CoqPrinter({})
+    xstats = dict(spelling_scenarios=0, spellings=0, spelling_calls=0, history_scenarios=0, history_calls=0, model_lines=0)
     for si, scn in enumerate(scns):
+        if scn.get("history"):
+            fs, mm, n = run_history(scn, (models[si] if models is not None else None))
+            xstats["model_lines"] += len(scn["ops"]) if models is not None else 0
+            xstats["history_scenarios"] += 1
+            xstats["history_calls"] += n
+            mism += mm
+            for f in fs:
+                z = f.pop("zone", None)
+                finding = z if (z and (model_ok is None or model_ok[si])) else None
+                if finding:
+                    tagged[finding] = tagged.get(finding, 0) + 1
+                violations.append(dict(f, finding=finding, stream="history", history=True))
+            continue
+        if scn.get("spelling"):
+            fs, mm, n, k, nm = check_spellings(scn, (models[si] if models is not None else None), rng, budget=2 if quick else 6)
+            xstats["model_lines"] += nm
+            xstats["spelling_scenarios"] += 1
+            xstats["spellings"] += k
+            xstats["spelling_calls"] += n
+            mism += mm
+            for f in fs:
+                violations.append(dict(f, finding=None, stream="spelling", scenario_repr=cp.dump_scn(dict(scn, ops=[], pool=[]))))
         impl = Impl(scn)
         stream = scn.get("defect") or "main"
         for i, e in enumerate(scn["exprs"]):
@@ -737,7 +1151,7 @@ def run(ctx):
                 fails, sp, want, got = check_case(impl, scn, i, o, ostats)
                 ostats["cases"] += 1
                 ostats["by_stream"][stream] = ostats["by_stream"].get(stream, 0) + 1
-                pf, n = perturb_case(impl, scn, i, o, sp, got, rng, budget=4 if ctx.quick else 8)
+                pf, n = perturb_case(impl, scn, i, o, sp, got, rng, budget=4 if quick else 8)
                 ostats["perturbations"] += n
                 if want[0] != "undef":
                     ostats["depth_hist"][sp.maxdepth] = ostats["depth_hist"].get(sp.maxdepth, 0) + 1
@@ -755,7 +1169,7 @@ def run(ctx):
                                 extra.append(del_path(o, k))
                 for f in fails + pf:
                     z = zone_of_failure(f, sp)
-                    finding = z if (z and model_ok[si]) else None
+                    finding = z if (z and (model_ok is None or model_ok[si])) else None
                     if z:
                         ostats["zone_cases"][z] += 1
                     if finding:
@@ -774,10 +1188,55 @@ def run(ctx):
                 ostats["deleted_read_cases"] += 1
                 for f in fails:
                     z = zone_of_failure(f, sp)
-                    finding = z if (z and model_ok[si]) else None
+                    finding = z if (z and (model_ok is None or model_ok[si])) else None
                     f.pop("unreported_keys", None)
                     violations.append(dict(f, finding=finding, expr_index=i, options=repr(o), stream=stream + "/deleted-read",
                                            scenario_repr=cp.dump_scn(dict(scn, ops=[], pool=[]))))
+
+    return violations, mism, ostats, xstats, read_cases, samples, distinct, tagged
+
+
+def build_scenarios(rng, quick, sizes):
+    depth = 3 if quick else 5
+    n_main, n_d1, n_d13, n_mal, n_sp, n_hist = sizes
+    scns = list(CORPUS)
+    for _, cs in corpus_for(PID):            # scenarios of repaired defects registered for this property
+        pool = []
+        for op in cs["ops"]:
+            if op[4] not in pool:
+                pool.append(op[4])
+        scns.append(dict(cs, pool=pool, defect=None))
+    for j in range(n_main):
+        scns.append(gen_scenario(rng, depth if j % 4 else max(1, depth - 1)))
+    for _ in range(n_d1):
+        scns.append(gen_scenario(rng, depth, "D1"))
+    for _ in range(n_d13):
+        scns.append(gen_scenario(rng, depth, "D13"))
+    for _ in range(n_mal):
+        scns.append(malformed_scenario(rng))
+    for j in range(n_sp):
+        scns.append(gen_spelling_scenario(rng, depth if j % 3 else 1))
+    for j in range(n_hist):
+        scns.append(gen_history(rng, depth if j % 3 else 1))
+    return scns, depth
+
+
+def run(ctx):
+    rng = ctx.rng
+    children = start_interpreters(ctx)
+    n_main, n_d1, n_d13, n_mal, n_sp, n_hist = sizes = (48, 10, 10, 8, 14, 8) if ctx.quick else (480, 100, 100, 60, 140, 80)
+    scns, depth = build_scenarios(rng, ctx.quick, sizes)
+
+    # 1. correspondence: model vs implementation on the histories
+    # small shards: one generated file holds the concatenated observation lines of its scenarios,
+    # and Coq's (non tail-recursive) string concatenation overflows the stack on very long ones
+    impls, models, mism, stats = cp.correspondence(ctx, scns, "Cases_C09", shard=10)
+    model_ok = [cp.agrees(il, ml, s) for s, il, ml in zip(scns, impls, models)]
+
+    # 2./3. oracle + perturbation
+    violations, mm, ostats, xstats, read_cases, samples, distinct, tagged = oracle_pass(scns, models, model_ok, rng, ctx.quick)
+    mism += mm
+    pr = core.CoqPrinter({})
 
     # the reads triangle: the model's logged present reads == the reads of the independent substitution
     cap = 900 if ctx.quick else 9000
@@ -795,6 +1254,7 @@ def run(ctx):
             mism.append(dict(where="Model/Eval.v logged reads (EvRead) vs the reads of the independent substitution",
                              expr=repr(scns[si]["exprs"][i]), options=repr(o), model=out[3:], spec=want))
 
+    interp = collect_interpreters(children, violations, mism, ctx.quick)
     known = []
     for fid in ("D1", "D13"):
         found = run_witness(fid)
@@ -804,21 +1264,26 @@ def run(ctx):
         known.append(dict(id=fid, still_fails=still, what=WITNESS[fid]["what"], oracle_failures=[k for k, _ in found]))
 
     return {
-        "evaluations": ostats["cases"] * 3 + ostats["perturbations"] + stats["ops"] + reads_compared,
+        "evaluations": ostats["cases"] * 3 + ostats["perturbations"] + stats["ops"] + reads_compared + xstats["spelling_calls"] + xstats["history_calls"]
+                       + sum(i["evaluations"] for i in interp.values()),
         "distinct_nontrivial": len(distinct),
         "rule": "template strings of 1-6 tokens over {literal, {KEY}, {DOTTED.KEY}, {:p:}, escaped braces} as Template, as the value of an Option and as "
                 "the default of an Option; 0-2 parameters (Option, constant, user function of an Option, templated Option, Template); options whose values are "
                 f"scalars or templated strings in acyclic chains up to reference depth {depth}, with neighbours (one value changed, one key deleted, empty, "
                 "unrelated); separate streams for D1 (templated strings inside list/section values), D13 (parameter text with braces) and malformed "
-                "references (cycles, scalar parents, list indices, sections, absent keys). Non-trivial = the independent substitution is defined and "
+                "references (cycles, scalar parents, list indices, sections, absent keys); a spelling stream (the Option with a templated default declared "
+                "through every public spelling: Option(key, default=str / Template), Option[str], >> f, and inside @Option.namespace classes: Option.auto "
+                "with / without doc, type, >> f, plain string members, annotated members, Option / Template members, item access, implicit / decorated / "
+                "renamed sub-namespaces); a history stream (long-lived Template / Option objects called with ONE options dictionary object edited in place, "
+                "neighbouring dictionaries that compare equal although they differ: 0/False, 1/True and - outside the model - 1.0). Non-trivial = the independent substitution is defined and "
                 "looked up at least one option key; distinct by hash of (expression, dictionary).",
         "samples": samples,
-        "traces_validated_against_impl": stats["ops"] + reads_compared,
+        "traces_validated_against_impl": stats["ops"] + reads_compared + xstats["model_lines"],
         "correspondence_mismatches": mism[:5],
         "violations": violations,
         "known": known,
         "distribution": dict(stats, oracle=ostats, oracle_failures_tagged=tagged, scenarios=len(scns), reads_compared=reads_compared,
-                             streams=dict(main=n_main, D1=n_d1, D13=n_d13, malformed=n_mal, corpus=len(CORPUS))),
+                             streams=dict(main=n_main, D1=n_d1, D13=n_d13, malformed=n_mal, corpus=len(CORPUS), spelling=n_sp, history=n_hist), extended=xstats, interpreters=interp),
         "exhaustive": False,
         "assumptions": ["literal characters exclude { } \\ : (the token view coincides with confectioner's regex scan); floats, cyclic chains in the main stream and "
                         "option values mentioning parameters are not generated",
@@ -832,6 +1297,21 @@ def run(ctx):
 def replay(ctx, payload):
     scn = cp.load_scn(payload["scenario_repr"])
     o = eval(payload["options"], {"S": S})
+    if "interpreter" in payload:                                    # found in a child interpreter: replay it there
+        it = payload["interpreter"]
+        inner = {k: v for k, v in payload.items() if k != "interpreter"}
+        res, err = _collect(_spawn(it["flags"], it["env"], dict(replay=inner, thread=it["thread"])), 600)
+        if res is None:
+            return True, dict(note="the child interpreter could not replay the input", error=err)
+        return bool(res["still"]), dict(interpreter=it["label"], detail=res["detail"])
+    if payload.get("history"):
+        fails, _mm, _n = run_history(dict(scn, history=True), None, float_tail=False, stop_first=False)
+        fails = [f for f in fails if f["kind"] == "history" or f["position"] == len(scn["ops"]) - 1]
+        return bool(fails), dict(failures=[{k: v for k, v in f.items() if k != "scenario_repr"} for f in fails[:4]])
+    if payload.get("spelling"):
+        scn = dict(scn, pool=[o])
+        fails, _mm, _n, _k, _nm = check_spellings(scn, None, random.Random(1), budget=50, only=payload["spelling"])
+        return bool(fails), dict(failures=fails[:4])
     i = payload["expr_index"]
     scn = dict(scn, pool=[o], ops=[(m, i, False, False, o) for m in ("evaluate", "keys", "explain", "validate")])
     impl = Impl(scn)
@@ -839,6 +1319,9 @@ def replay(ctx, payload):
     fails, sp, want, got = check_case(impl, scn, i, o)
     pf, _ = perturb_case(impl, scn, i, o, sp, got, random.Random(1), budget=50)
     pf = pf + reentrancy_check(impl, i, o)
+    if ctx is None:                     # in a child interpreter: the implementation-side oracle only
+        return bool(fails or pf), dict(spec=repr(want), impl=repr(got),
+                                       failures=[{k: v for k, v in f.items() if k != "unreported_keys"} for f in fails + pf])
     il = core.run_impl(scn)
     ml = ctx.coq_eval("Replay_C09", cp.REQ, "", [core.coq_scenario(scn)])[0].split(" ## ")
     agrees = cp.agrees(il, ml, scn)
